@@ -29,6 +29,9 @@ func init() {
 		Variants: []Variant{
 			{Name: "nil-future-on-rejected-change", File: pkgProxy + "/handle_chat.go",
 				Old: "\t\t\tif packet.Signed && c.invalidChange(c.log, c.player) {\n\t\t\t\treturn asFuture(nil)\n\t\t\t}", New: "\t\t\tif packet.Signed && c.invalidChange(c.log, c.player) {\n\t\t\t\treturn nil\n\t\t\t}", Expect: "non-nil-continuation"},
+			{Name: "denied-command-acks-before-adopting-fixed-last-seen", File: pkgProxy + "/handle_cmd.go",
+				Old: "\t\tif newLastSeenMessages != nil {\n\t\t\tpacket.LastSeenMessages = *newLastSeenMessages // fixed packet\n\t\t}\n\n\t\tif !e.Allowed() {\n\t\t\treturn consumeCommand(packet, newLastSeenMessages != nil)\n\t\t}\n",
+				New: "\t\tif !e.Allowed() {\n\t\t\treturn consumeCommand(packet, newLastSeenMessages != nil)\n\t\t}\n\t\tif newLastSeenMessages != nil {\n\t\t\tpacket.LastSeenMessages = *newLastSeenMessages // fixed packet\n\t\t}\n", Expect: "last-seen-adopted"},
 			{Name: "unsigned-command-flushes-acks", File: pkgProxy + "/handle_cmd.go",
 				Old: "\tvar lastSeenMessages *chat.LastSeenMessages\n\tif !unsigned {\n\t\tlastSeenMessages = &packet.LastSeenMessages\n\t}\n", New: "\tlastSeenMessages := &packet.LastSeenMessages\n", Expect: "unsigned-no-last-seen"},
 			{Name: "consumed-ack-gated-on-bitset", File: pkgProxy + "/handle_cmd.go",
@@ -247,6 +250,7 @@ func runC21(c *Ctx) {
 
 	// ---- (3) conservation
 	checkAckArithmetic(c)
+	checkLastSeenAdopted(c, lc)
 
 	// ---- (4) unsigned commands
 	if hs := c.MustFunc(pkgProxy + ":(*chatHandler).handleSessionCommand"); hs != nil {
